@@ -1,6 +1,7 @@
 import Firebolt.Properties.C01
 import Firebolt.Properties.ExecCompose
 import Firebolt.Properties.ExecNet
+import Firebolt.Properties.ExecLive
 /-!
 # C03 — Clean shutdown drains the whole pipeline and orders node lifecycles
 The invariants under every interleaving are proved on the node component model (`Properties/ExecCascade.lean`, imported by
@@ -102,5 +103,17 @@ theorem tree_drained_any_global_schedule (cfg : Path → Cfg) (caps : Path → N
   obtain ⟨d1, _, d3⟩ := terminal_drained _ _ (hG.all (k :: p)) htk
   obtain ⟨l1, _, l3⟩ := link_fields N hG.link p k hk
   exact ⟨by rw [← l1, d3], by rw [← l3, d1]⟩
+
+
+open Firebolt.Exec in
+/-- **the drain cannot get stuck** (progress): in every state of the whole tree reachable under any global schedule, once
+the source has finished, either every node is terminal — so, by `tree_drained_any_global_schedule`, everything has been
+processed and every Shutdown has run — or some worker or pending completion of some node can take a step.  (Trees of finite
+depth, at least one worker per node, buffers of size ≥ 1; that node code returns is what makes the enabled step happen.) -/
+theorem tree_drain_cannot_get_stuck (cfg : Path → Cfg) (caps : Path → Nat) (disc : Path → Bool) (sched : List (Path × Act)) (N : Net) (d : Nat)
+    (hr : grun (ginit cfg caps disc) sched = some N) (hd : FiniteDepth cfg d) (hW : ∀ p, 0 < (cfg p).W) (hcap : ∀ p, 1 ≤ caps p)
+    (hsrc : (N.st []).inpClosed = true) :
+    (∀ p, inTree cfg p → Terminal (cfg p) (N.st p)) ∨ ∃ p a, nonEnv a = true ∧ (gstep N p a).isSome = true :=
+  deadlock_free cfg caps disc sched N d hr hd hW hcap hsrc
 
 end Firebolt.C03
